@@ -65,6 +65,9 @@ def evaluate(sub, obj, req):
                 S = np.array([float.fromhex(s) for s in req["stress"]])
                 TT = np.full(S.shape, float.fromhex(T))
                 out["tR"].append([[hv(v) for v in obj.time_to_rupture(p, TT, S)] for p in ("averageRupture", "lowerboundRupture")])
+            # an unloaded point never ruptures
+            out["tR0"] = [[hv(obj.time_to_rupture(p, np.array([float.fromhex(T)]), np.array([0.0]))[0]) for p in ("averageRupture", "lowerboundRupture")]
+                          for T in req["T"]]
             out["Nf"] = []
             for T in req["Tf"]:
                 row = []
